@@ -15,9 +15,9 @@ func init() {
 			add("verifH_c05_booth", P("w", 6))
 			add("verifH_c05_booth", P("w", 5))
 			add("verifH_c05_basemult", P())
-			if tier != "quick" {
-				add("verifH_c05_scalarmult", P())
-			}
+			// verifH_c05_scalarmult (variable-point driver, same model) did not converge: one chained-lemma
+			// query ran for more than 25 minutes; it is not registered in any tier (stated as outside)
+			_ = add
 			for _, n := range []int{0, 1, 32, 33, 64, 65, 66} {
 				c := driver.Case{Harness: "verifH_c05_decode", Pkg: "internal/sm2ec", Config: "asm", Params: P("n", n), Overrides: ov, MaxUnwind: 3000, TimeoutS: 1200, Portfolio: true}
 				if n == 1 || n == 33 || n == 65 {
@@ -45,8 +45,8 @@ func init() {
 		},
 		Functions:   []string{"sm2/sm2ec.(*sm2Curve).IsOnCurve, pointFromAffine, pointToAffine, Add, ScalarMult, ScalarBaseMult, normalizeScalar, Inverse (real math/big code)", "internal/sm2ec.(*SM2P256Point).SetBytes (amd64 and purego Go code), p256OrdAdd, p256Add, p256LessThanP", "internal/sm2ec.boothW5, boothW6", "(*SM2P256Point).ScalarBaseMult, p256BaseMult", "(*SM2P256Point).ScalarMult, p256ScalarMult"},
 		Assumptions: []string{"drivers: exact-multiple model of the group (a point is the integer it is a multiple of; kernel contracts incl. their undefined results)", "decoders: field multiplication/squaring/Montgomery conversion uninterpreted", "wrapper: abstract group over coordinate encodings, curve membership opaque; (*big.Int).Mod with symbolic operands uninterpreted; coordinate length classes (xz, yz) in {(0,0),(32,0),(0,32),(1,0),(32,32)} leading zero bytes, results of group operations full length"},
-		Bounds:      map[string]string{"quick": "every 32-byte scalar (ScalarBaseMult driver); every byte string of 0/1/32/33/64/65/66 bytes (SetBytes); every pair of reduced operands (add lemmas); wrapper: every coordinate pair in five length classes, every scalar of 1/31/32/33/40 bytes", "thorough": "additionally the ScalarMult driver for every 32-byte scalar"},
-		Outside:     []string{"assembly bodies and fiat field arithmetic (that the kernels compute the group law)", "on-curve decisions, square roots, inversion modulo n", "CombinedMult, Double, Unmarshal/UnmarshalCompressed of the wrapper; purego scalar-multiplication drivers"},
+		Bounds:      map[string]string{"quick": "every 32-byte scalar (ScalarBaseMult driver); every byte string of 0/1/32/33/64/65/66 bytes (SetBytes); every pair of reduced operands (add lemmas); wrapper: every coordinate pair in five length classes, every scalar of 1/31/32/33/40 bytes", "thorough": "same"},
+		Outside:     []string{"assembly bodies and fiat field arithmetic (that the kernels compute the group law)", "on-curve decisions, square roots, inversion modulo n", "the variable-point ScalarMult driver of the assembly configuration (harness exists, chained lemmas did not converge within 25 min)", "CombinedMult, Double, Unmarshal/UnmarshalCompressed of the wrapper; purego scalar-multiplication drivers"},
 		Oracle:      "exact integer multiple modulo the group order",
 	})
 }
